@@ -193,8 +193,10 @@ class PseudoOperand(Operand):
             self.value = MultiByteValue(operand_string) if "," in operand_string else Value.create_from_str(operand_string, instruction)
         elif instruction.is_multi_word:
             self.value = MultiWordValue(operand_string) if "," in operand_string else Value.create_from_str(operand_string, instruction)
+        elif instruction.is_include or (instruction.mnemonic == "END" and not operand_string):
+            self.value = NoneValue()
         else:
-            self.value = NoneValue() if instruction.is_include else Value.create_from_str(operand_string, instruction)
+            self.value = Value.create_from_str(operand_string, instruction)
 
         if instruction.is_pseudo_define:
             if self.operand_string.startswith("$") and len(self.operand_string) > 3:
